@@ -112,6 +112,8 @@ def backend_corpus(seed, tier):
         gs.append(('lay%d' % i, gram.layered_expr(rnd)))
     for i in range(4 if tier == 'quick' else 40):
         gs.append(('ring%d' % i, gram.ring_grammar(rnd, nullable=bool(i % 2))))
+    for i in range(1 if tier == 'quick' else 3):
+        gs.append(('big%d' % i, gram.big_grammar(rnd)))
     n = 300 if tier == 'quick' else 3000
     for i in range(n):
         kind = i % 4
@@ -156,6 +158,8 @@ def i6_corpus(seed, tier):
         gs.append(('lay%d' % i, genrun.fix_tags(gram.layered_expr(rnd, nlev=rnd.randint(1, 2)))))
     for i in range(2 if tier == 'quick' else 10):
         gs.append(('long%d' % i, genrun.fix_tags(gram.long_rule_grammar(rnd))))
+    for i in range(1 if tier == 'quick' else 3):
+        gs.append(('big%d' % i, genrun.fix_tags(gram.big_grammar(rnd, square=True))))
     for i in range(3 if tier == 'quick' else 15):
         gs.append(('dup%d' % i, genrun.fix_tags(gram.dup_rule_grammar(rnd))))
     for i in range(10 if tier == 'quick' else 60):
@@ -169,7 +173,7 @@ def i6_corpus(seed, tier):
         while sum(nT ** k for k in range(L + 2)) <= budget and L < 7:
             L += 1
         if nT > 8:
-            L = 1
+            L = 2 if g.get('big') else 1
         ins = [genrun.enc(s) for s in gram.all_strings(nT, L) if all(t < 25 for t in s)]
         sents = set()
         for _ in range(40 if tier == 'quick' else 150):
